@@ -25,9 +25,11 @@ import kneeliverse.rdp as rdp
 EPS = lib.EPS
 
 
-def noise_tol(dmax):
-    """'not farther ... by more than rounding noise' (one-sided, explicit)."""
-    return 1e-9 * (1.0 + dmax) + EPS
+def noise_tol(dmax, mag=1.0):
+    """'not farther ... by more than rounding noise' (one-sided, explicit, RELATIVE to the data: 1e-9 of
+    the largest distance plus 64 ulps of the largest coordinate magnitude - an absolute floor would make
+    the clause vacuous on curves expressed in tiny units)."""
+    return 1e-9 * dmax + 64 * EPS * mag
 
 
 class Seg:
@@ -82,7 +84,7 @@ class Seg:
         ds = float(d[s - a])
         if not (dmax == dmax):       # NaN distances: undefined, accept
             return True
-        return ds >= dmax - noise_tol(dmax)
+        return ds >= dmax - noise_tol(dmax, self.mag)
 
     def score(self, order, a, b):
         k = (order, a, b)
